@@ -14,13 +14,13 @@ bit-level CRC32-C) satisfies them: `C17_pbCodec_valid`.
 * history level: `C17_replay_exact` (any sequence of accepted `addChanges` calls, automatic
   rewrites included, any threshold).
 
-**Finding F16.** `ReplayManifestFile` compares a frame's length field with `uint32(file size)`
-*before* it tries to read the payload. A file torn inside its last frame (after the 8-byte
-length/CRC header) whose payload length exceeds the size of what is left on disk is therefore
-reported as an error (`lenExceedsFile`) rather than as a truncation. The unconditional statement
-`C17_truncStatement` is false (`C17_trunc_counterexample`); `C17_trunc`/`C17_atomic_sets` carry
-the side condition `hfit`, and `C17_trunc_lenExceeds` proves that the error is returned exactly
-when it is violated.
+**Finding F16 (fixed).** `ReplayManifestFile` used to compare a frame's length field with
+`uint32(file size)` *before* trying to read the payload, so a file torn inside its last frame
+whose payload length exceeded the size of what was left on disk was reported as an error rather
+than as a truncation. Now the length is compared with the bytes left in the file and a longer
+record is the torn tail it is: `C17_trunc` / `C17_atomic_sets` need no side condition any more,
+`C17_truncStatement` is a theorem (`C17_trunc_all`), and `C17_F16_regression_witness` keeps the
+input on which the old rule failed.
 -/
 namespace Badger
 
@@ -45,17 +45,15 @@ theorem replay_frames_tail (cd : Codec) (hv : cd.Valid) (ext : Nat) (hext : ext 
     (hall : applyAll Manifest.empty pre = some m) (hrange : ∀ s, s ∈ pre → ChangeSet.InRange s)
     (hsize : (manifestHeader ext ++ (framesOf cd pre ++ t)).length < 2 ^ 32) :
     replay cd (manifestHeader ext ++ (framesOf cd pre ++ t)) ext =
-      replayRest cd (manifestHeader ext ++ (framesOf cd pre ++ t)).length t
-        (8 + (framesOf cd pre).length) m := by
+      replayRest cd t (8 + (framesOf cd pre).length) m := by
   rw [replay_header cd ext hext]
   have hl : (manifestHeader ext ++ (framesOf cd pre ++ t)).length = 8 + (framesOf cd pre ++ t).length := by
     simp
-  rw [hl] at hsize ⊢
-  apply replayRest_frames cd hv _ pre t 8 Manifest.empty m hall hrange
+  rw [hl] at hsize
+  apply replayRest_frames cd hv pre t 8 Manifest.empty m hall hrange
   intro cs hcs
-  rw [Nat.mod_eq_of_lt hsize]
   have := enc_le_framesOf cd pre cs hcs
-  simp only [List.length_append]
+  simp only [List.length_append] at hsize
   omega
 
 /-- Replay of an intact file: every set applied, truncation offset = file size. -/
@@ -67,7 +65,7 @@ theorem replay_intact (cd : Codec) (hv : cd.Valid) (ext : Nat) (hext : ext < 2 ^
   have h := replay_frames_tail cd hv ext hext sets [] m hall hrange (by simpa [manifestFileOf] using hsize)
   simp only [List.append_nil] at h
   unfold manifestFileOf
-  rw [h, replayRest_short _ _ _ _ _ (by simp)]
+  rw [h, replayRest_short _ _ _ _ (by simp)]
   simp
 
 theorem rawFrame_take (l c : Nat) (p : Bytes) (k : Nat) (hk : 8 ≤ k) :
@@ -80,18 +78,18 @@ theorem rawFrame_take (l c : Nat) (p : Bytes) (k : Nat) (hk : 8 ≤ k) :
 /-- **Atomicity of change sets.** Take the file of `pre ++ [cs] ++ …` and cut it `k` bytes into
     the frame of `cs` (`k = 0`: exactly at a frame boundary; `k` strictly less than the frame
     length). Replay succeeds with exactly the sets `pre` applied — nothing of `cs` — and the
-    truncation offset is the end of the last complete frame. `hfit` is the side condition of
-    finding F16 (vacuous for cuts inside the 8-byte frame header). -/
+    truncation offset is the end of the last complete frame. (`hl32`: the length field is a
+    `uint32`.) -/
 theorem C17_atomic_sets (cd : Codec) (hv : cd.Valid) (ext : Nat) (hext : ext < 2 ^ 16)
     (pre : List ChangeSet) (cs : ChangeSet) (k : Nat) (m : Manifest)
     (hall : applyAll Manifest.empty pre = some m) (hrange : ∀ s, s ∈ pre → ChangeSet.InRange s)
     (hk : k < (frame cd (cd.enc cs)).length)
     (hsize : (manifestFileOf cd ext pre ++ (frame cd (cd.enc cs)).take k).length < 2 ^ 32)
-    (hfit : 8 ≤ k → (cd.enc cs).length ≤ (manifestFileOf cd ext pre ++ (frame cd (cd.enc cs)).take k).length) :
+    (hl32 : (cd.enc cs).length < 2 ^ 32) :
     replay cd (manifestFileOf cd ext pre ++ (frame cd (cd.enc cs)).take k) ext =
       .ok (m, (manifestFileOf cd ext pre).length) := by
   unfold manifestFileOf at *
-  rw [List.append_assoc] at hsize hfit ⊢
+  rw [List.append_assoc] at hsize ⊢
   rw [replay_frames_tail cd hv ext hext pre _ m hall hrange hsize]
   have hoff : 8 + (framesOf cd pre).length = (manifestHeader ext ++ framesOf cd pre).length := by simp
   rw [hoff]
@@ -100,29 +98,10 @@ theorem C17_atomic_sets (cd : Codec) (hv : cd.Valid) (ext : Nat) (hext : ext < 2
   · apply replayRest_short
     simp only [List.length_take, frame_length]; omega
   · have h8' : 8 ≤ k := by omega
-    rw [frame_eq_rawFrame, rawFrame_take _ _ _ _ h8'] at hsize hfit ⊢
-    have hfit' := hfit h8'
+    rw [frame_eq_rawFrame, rawFrame_take _ _ _ _ h8']
     apply replayRest_tornPayload
-    · omega
-    · rw [Nat.mod_eq_of_lt hsize]; exact hfit'
+    · exact hl32
     · simp only [List.length_take]; omega
-
-/-- The complement of the side condition: the code returns the length error (finding F16). -/
-theorem C17_trunc_lenExceeds (cd : Codec) (hv : cd.Valid) (ext : Nat) (hext : ext < 2 ^ 16)
-    (pre : List ChangeSet) (cs : ChangeSet) (k : Nat) (m : Manifest)
-    (hall : applyAll Manifest.empty pre = some m) (hrange : ∀ s, s ∈ pre → ChangeSet.InRange s)
-    (hk : 8 ≤ k)
-    (hsize : (manifestFileOf cd ext pre ++ (frame cd (cd.enc cs)).take k).length < 2 ^ 32)
-    (hl32 : (cd.enc cs).length < 2 ^ 32)
-    (hbig : (manifestFileOf cd ext pre ++ (frame cd (cd.enc cs)).take k).length < (cd.enc cs).length) :
-    replay cd (manifestFileOf cd ext pre ++ (frame cd (cd.enc cs)).take k) ext = .error .lenExceedsFile := by
-  unfold manifestFileOf at *
-  rw [List.append_assoc] at hsize hbig ⊢
-  rw [replay_frames_tail cd hv ext hext pre _ m hall hrange hsize]
-  rw [frame_eq_rawFrame, rawFrame_take _ _ _ _ hk] at hsize hbig ⊢
-  apply replayRest_lenExceeds
-  · exact hl32
-  · rw [Nat.mod_eq_of_lt hsize]; exact hbig
 
 /-- **Truncated tail.** The file of `pre ++ [last]` cut anywhere inside the frame of `last`:
     replay returns the manifest of `pre` and the end of the last complete frame. -/
@@ -131,8 +110,7 @@ theorem C17_trunc (cd : Codec) (hv : cd.Valid) (ext : Nat) (hext : ext < 2 ^ 16)
     (hall : applyAll Manifest.empty pre = some m) (hrange : ∀ s, s ∈ pre → ChangeSet.InRange s)
     (hc1 : (manifestFileOf cd ext pre).length ≤ c)
     (hc2 : c < (manifestFileOf cd ext (pre ++ [last])).length)
-    (hsize : c < 2 ^ 32)
-    (hfit : (manifestFileOf cd ext pre).length + 8 ≤ c → (cd.enc last).length ≤ c) :
+    (hsize : c < 2 ^ 32) (hl32 : (cd.enc last).length < 2 ^ 32) :
     replay cd ((manifestFileOf cd ext (pre ++ [last])).take c) ext =
       .ok (m, (manifestFileOf cd ext pre).length) := by
   have hfile : manifestFileOf cd ext (pre ++ [last]) =
@@ -146,16 +124,27 @@ theorem C17_trunc (cd : Codec) (hv : cd.Valid) (ext : Nat) (hext : ext < 2 ^ 16)
   apply C17_atomic_sets cd hv ext hext pre last _ m hall hrange
   · simp only [List.length_append] at hc2; omega
   · rw [hlen]; exact hsize
-  · rw [hlen]; intro h; apply hfit; omega
+  · exact hl32
 
-/-- The statement without the side condition (what C09/C17 ask for). -/
+/-- The statement C09/C17 ask for: **every** cut inside the last frame is a truncation (the only
+    hypothesis beyond well-formedness is that the MANIFEST is smaller than 4 GiB, the range of the
+    `uint32` length field). False before the fix of finding F16. -/
 def C17_truncStatement (cd : Codec) : Prop :=
   ∀ (ext : Nat) (pre : List ChangeSet) (last : ChangeSet) (c : Nat) (m : Manifest),
     ext < 2 ^ 16 → applyAll Manifest.empty pre = some m →
     (∀ s, s ∈ pre → ChangeSet.InRange s) → ChangeSet.InRange last →
+    (manifestFileOf cd ext (pre ++ [last])).length < 2 ^ 32 →
     (manifestFileOf cd ext pre).length ≤ c → c < (manifestFileOf cd ext (pre ++ [last])).length →
     replay cd ((manifestFileOf cd ext (pre ++ [last])).take c) ext =
       .ok (m, (manifestFileOf cd ext pre).length)
+
+theorem C17_trunc_all (cd : Codec) (hv : cd.Valid) : C17_truncStatement cd := by
+  intro ext pre last c m hext hall hrange _ hsz hc1 hc2
+  have hl : (cd.enc last).length < 2 ^ 32 := by
+    have := enc_le_framesOf cd (pre ++ [last]) last (by simp)
+    simp only [manifestFileOf, List.length_append] at hsz
+    omega
+  exact C17_trunc cd hv ext hext pre last c m hall hrange hc1 hc2 (by omega) hl
 
 /-- **Checksum mismatch.** After any complete frames, a frame whose stored CRC differs from the
     CRC of its payload (e.g. because payload bytes were altered) makes replay return the
@@ -174,10 +163,7 @@ theorem C17_checksum_error (cd : Codec) (hv : cd.Valid) (ext : Nat) (hext : ext 
   rw [replay_frames_tail cd hv ext hext pre _ m hall hrange hsize]
   have hp : payload.length < 2 ^ 32 := by
     simp only [List.length_append, rawFrame, beBytes_length] at hsize; omega
-  rw [replayRest_rawFrame cd _ _ _ _ _ _ _ rfl hp hc32]
-  · rw [if_pos hbad]
-  · rw [Nat.mod_eq_of_lt hsize]
-    simp only [List.length_append, rawFrame, beBytes_length]; omega
+  rw [replayRest_rawFrame cd _ _ _ _ _ _ rfl hp hc32, if_pos hbad]
 
 /-! ## histories of `addChanges`, rewrites included -/
 
@@ -331,7 +317,7 @@ theorem C17_replay_exact_levels (cd : Codec) (hv : cd.Valid) (ext : Nat) (hext :
 
 /-! ## histories with crashes: torn tail, reopen, further appends on the same handle -/
 
-instance (fsize : Nat) (t : Bytes) : Decidable (TornTail fsize t) := by unfold TornTail; infer_instance
+instance (t : Bytes) : Decidable (TornTail t) := by unfold TornTail; infer_instance
 
 /-- A step of a longer history: an accepted `addChanges`, or a crash that leaves `tail` (a torn
     record: `TornTail`) behind the last complete frame, followed by a reopen
@@ -347,7 +333,7 @@ def runSteps (cd : Codec) (mf : MFile) : List MStep → Option MFile
     | (mf', none) => runSteps cd mf' rest
     | (_, some _) => none
   | .crashReopen tail :: rest =>
-    if TornTail (mf.file ++ tail).length tail ∧ (mf.file ++ tail).length < 2 ^ 32 then
+    if TornTail tail ∧ (mf.file ++ tail).length < 2 ^ 32 then
       match MFile.openExisting cd (mf.file ++ tail) mf.ext mf.threshold with
       | .ok (mf', _) => runSteps cd mf' rest
       | .error _ => none
@@ -357,15 +343,15 @@ def runSteps (cd : Codec) (mf : MFile) : List MStep → Option MFile
     descriptor is at its end, and the in-memory manifest is a clone of the replayed one. -/
 theorem MFile.reopen_inv (cd : Codec) (hv : cd.Valid) (lv cn : Bool) (mf : MFile) (tail : Bytes)
     (hext : mf.ext < 2 ^ 16) (hinv : mf.Inv cd lv cn)
-    (htorn : TornTail (mf.file ++ tail).length tail) (hsize : (mf.file ++ tail).length < 2 ^ 32) :
+    (htorn : TornTail tail) (hsize : (mf.file ++ tail).length < 2 ^ 32) :
     ∃ mf' m, MFile.openExisting cd (mf.file ++ tail) mf.ext mf.threshold = .ok (mf', m) ∧
       mf'.Inv cd lv false ∧ mf'.ext = mf.ext ∧ mf'.threshold = mf.threshold ∧ mf'.file = mf.file := by
   obtain ⟨fsets, m', hfile, hall, hfr, heq, hw', hw, hlv, hpos⟩ := hinv
   have hrep : replay cd (mf.file ++ tail) mf.ext = .ok (m', mf.file.length) := by
-    rw [hfile] at hsize htorn ⊢
+    rw [hfile] at hsize ⊢
     unfold manifestFileOf at *
-    rw [List.append_assoc] at hsize htorn ⊢
-    rw [replay_frames_tail cd hv mf.ext hext fsets tail m' hall hfr hsize, replayRest_torn cd _ tail _ m' htorn]
+    rw [List.append_assoc] at hsize ⊢
+    rw [replay_frames_tail cd hv mf.ext hext fsets tail m' hall hfr hsize, replayRest_torn cd tail _ m' htorn]
     simp
   obtain ⟨m1, h1, hw1, heq1⟩ := applyChangeSet_asChanges cd hv m' hw'
   have hclone : m'.clone cd = m1 := by unfold Manifest.clone; rw [h1]
@@ -462,22 +448,24 @@ instance (cs : ChangeSet) : Decidable (ChangeSet.InRange cs) := by
 def c17Witness : ChangeSet :=
   [Change.create 1 1 1 1, Change.create 2 1 1 1, Change.create 3 1 1 1]
 
-/-- **Finding F16** on the concrete codec: a fresh MANIFEST (16 bytes) followed by the frame
-    of `c17Witness` (8 + 30 bytes), cut at byte 25 (one byte into the payload): the length
-    field (30) exceeds the size of the torn file (25) and replay fails. -/
-theorem C17_trunc_counterexample_replay :
+/-- The length check of `ReplayManifestFile` before the fix of finding F16: the length field of
+    the frame at `frameStart` against `uint32(stat.Size())`. -/
+def oldLengthCheckRejects (file : Bytes) (frameStart : Nat) : Bool :=
+  decide (beNat ((file.drop frameStart).take 4) > file.length % 2 ^ 32)
+
+/-- regression witness for finding F16 (fixed): a fresh MANIFEST (16 bytes) followed by the frame
+    of `c17Witness` (8 + 30 bytes), cut at byte 25 (one byte into the payload). The old rule
+    rejected the file — the length field (30) exceeds the size of the torn file (25) — and Open
+    failed; now the record is the torn tail it is and replay truncates at byte 16. -/
+theorem C17_F16_regression_witness :
+    oldLengthCheckRejects ((manifestFileOf pbCodec 0 ([[]] ++ [c17Witness])).take 25) 16 = true ∧
     replay pbCodec ((manifestFileOf pbCodec 0 ([[]] ++ [c17Witness])).take 25) 0 =
-      .error .lenExceedsFile := by decide
+      .ok (Manifest.empty, 16) := by decide
 
-theorem C17_trunc_counterexample : ¬ C17_truncStatement pbCodec := by
-  intro h
-  have h1 := h 0 [[]] c17Witness 25 Manifest.empty (by decide) (by decide)
-    (by intro s hs; simp only [List.mem_singleton] at hs; subst hs; decide) (by decide)
-    (by decide) (by decide)
-  rw [C17_trunc_counterexample_replay] at h1
-  cases h1
+/-- `C17_truncStatement` for the concrete codec. -/
+theorem C17_trunc_all_pb : C17_truncStatement pbCodec := C17_trunc_all pbCodec pbCodec_valid
 
--- the same file cut inside the 8-byte frame header, or late enough in the payload, is fine
+-- the same file cut inside the 8-byte frame header, or later in the payload
 example : replay pbCodec ((manifestFileOf pbCodec 0 ([[]] ++ [c17Witness])).take 23) 0 =
     .ok (Manifest.empty, 16) := by decide
 example : replay pbCodec ((manifestFileOf pbCodec 0 ([[]] ++ [c17Witness])).take 31) 0 =
